@@ -10,7 +10,7 @@ GENERATORS = ['gen_font',            # Model/Font.v (reused for glyphs_from_u8_d
 COQ_TARGETS = ['Props/C03.vo', 'Run/RunC03.vo', 'Run/RunC03L.vo']
 PROPS_MODULE = 'Props.C03'
 THEOREMS = ['cost_bound', 'cost_bound_sp', 'prim_ticks_bound', 'ticks_bound_scroll', 'tick_version_same_state', 'fixed_arms_only', 'sp_arms_only',
-            'rep_linear', 'rep_refuted', 'hexmacro_refuted', 'macro_recursion_before_fix_refuted', 'sixel_repeat_linear', 'sixel_raster_refuted',
+            'rep_clamped', 'rep_linear_before_fix', 'rep_before_fix_refuted', 'hexmacro_refuted', 'macro_recursion_before_fix_refuted', 'sixel_repeat_linear', 'sixel_raster_refuted',
             'avatar_repeat_bound', 'glyph_iters_bound', 'window_ticks_bound',
             # extension (a): allocation
             'alloc_version_same_state', 'alloc_counts_growth', 'alloc_dominates', 'alloc_bound', 'alloc_bound_state', 'alloc_bound_sp', 'alloc_bound_dollar',
@@ -34,8 +34,8 @@ TRUSTED = ['Coq 8.16.1 kernel + vm_compute (model evaluation in stage C); no axi
            'every bound theorem carries the equality with the original function, the hand-written parts are tied by the stage-C comparisons listed in RULE; '
            'the models of C05 / C02 (loaders), C14 (Sixel.v), C09/C01 (TermCore.v, AnsiTok.v) are imported unchanged']
 UNMODELLED = ['real time and memory (the theorems count iterations and allocated rows/cells/bytes; Vec::insert/remove count as one step)',
-              'REP: outside alloc_bound / ticks_bound (final byte b is the known class of both; its threaded counter rep_a is computed, dominates the growth '
-              '(alloc_dominates) and is compared one-sidedly by stage C; its per-iteration weight is an upper estimate)',
+              'REP (repaired: at most terminal width x height copies): inside cost_bound and ticks_bound now; still outside alloc_bound (its threaded counter rep_a is computed, dominates '
+              'the growth (alloc_dominates), runs over at most width x height print_char calls (rep_clamped) and is compared one-sidedly by stage C; the amortised bound over print_char is not proved)',
               'macro replay: macro_replay_bound / macro_replay_total / macro_recursion_bounded are about macro_chars (characters replayed, nesting through the `ESC [ n * z` occurrences '
               'of the bodies, at most MAX_MACRO_NESTING levels as in the code, the chain abandoned at the first invocation beyond the limit); a macro that DEFINES macros while it is replayed '
               'is not covered by that abstraction (the character-level model AnsiTok.astep covers it: C01); the bound for NON-recursive nests is geometric in the depth (each level may replay '
@@ -130,7 +130,8 @@ def tuples(rng, w, h, count, first_small_only=False):
         out = [t for t in out if not t or t[0] < 2147483647]
     return out[:count] if not first_small_only else out
 
-KNOWN_SLOW = ('REP',)
+KNOWN_SLOW = ()             # control functions whose 2^31-1 variant burns the time limit (REP until its repair: now an ordinary table entry)
+MODEL_SLOW = ('REP',)       # stage C only: the MODEL walks lists cell by cell, keep the count small there
 
 # ---- prepared states, probes (strengthening after the missed seeds: notes/C03.md) ---------------------------------------------------
 MAXW, MAXH = 132, 60          # the largest text area the engine accepts (CSI 8;h;w t clamps to it)
@@ -205,7 +206,7 @@ def state_tuples(rng, w, h, k, name):
         r = rng.random()
         if r < 0.3: out.append((rng.randint(0, 9),) + tuple(rng.choice([65536, 1000000, B]) for _ in range(rng.choice([1, 1, 2]))))
         else: out.append(tuple(rng.choice(vals) for _ in range(rng.choice([1, 1, 2, 3, 4]))))
-    if name in KNOWN_SLOW:      # REP beyond the screen is a known class in every state (the fresh-screen table keeps reporting it)
+    if name in KNOWN_SLOW:
         out = [((min(t[0], 3000),) + t[1:]) if t else t for t in out]
     return out
 
@@ -305,8 +306,12 @@ def special_cases(ctx):
         seq('avatar-repeat', b'\x19\n' + bytes([n]), emu=2)
     seq('avatar-repeat', b'\x19\x19\xff', emu=2)
     seq('avatar-repeat', b'\x19\x1b\xff', emu=2)
-    seq('REP', E + b'[\x199\x09b', emu=2, is_slow=True)                 # 9 digits into the pending CSI, then REP 999999999 (known class REP)
-    seq('REP', E + b'[\x199\x0ab', emu=2, pre=b'A', is_slow=True)        # 10 digits: REP 2147483599 (known class REP)
+    seq('REP', E + b'[\x199\x09b', emu=2)                 # 9 digits into the pending CSI, then REP 999999999 (regression: the former known class REP)
+    seq('REP', E + b'[\x199\x0ab', emu=2, pre=b'A')        # 10 digits: REP 2147483599
+    for n in (1000, 2001, 1000000, 10000000, 2147483647):   # regression inputs of C03-oom/timeout/alloc:REP
+        seq('REP', b'A' + E + b'[%db' % n)
+        seq('REP', b'A' + E + b'[%db' % n, w=132, h=60)
+        seq('REP', E + b'[2;5r' + E + b'[5;1HA' + E + b'[%db' % n)          # through margins: one scroll per wrapped row
     # custom fonts through DCS (CTerm:Font:<slot>:<base64>), payload < 64 bytes in total
     fonts = [b'\x36\x04\x00\x00', b'\x36\x04\x00\x00' + b'\x00' * 8, b'\x36\x04\x02\xff' + b'\x00' * 8, b'\x36\x04\x03\x01\x00',
              b'\x72\xb5\x4a\x86' + struct.pack('<7I', 0, 32, 0, 0xffffffff, 0xffffffff, 0xffffffff, 0xffffffff)[:20],
@@ -343,7 +348,8 @@ def special_cases(ctx):
         load(ext, b'')
         load(ext, b'A' * 63)
         if not quick or ext in ('ans', 'avt'):
-            load(ext, E + b'[2147483647b', name='REP', is_slow=True)          # the text loaders run the parsers: known class REP
+            load(ext, E + b'[2147483647b', name='REP')          # the text loaders run the parsers (regression: the former known class REP)
+            load(ext, b'A' + E + b'[2147483647b', name='REP')
         load(ext, b'A' + E + b'[1000000b', name='REP')
         load(ext, b'\x19A\xff' * 20)
         load(ext, E + b'[2147483647C' + b'A')
@@ -604,7 +610,7 @@ def state_corr_cases(ctx):
     nstates = len(prepared_states(80, 25))
     def add(inter, final, t, with_probe, si=None):
         name = fn_name(inter, final)
-        if name in KNOWN_SLOW and t: t = (min(t[0], 300),) + t[1:]
+        if name in MODEL_SLOW and t: t = (min(t[0], 300),) + t[1:] if rng.random() < 0.5 else t     # (the small screens of SCROLLERS clamp the rest: REP <= w*h <= 240)
         for _ in range(20):
             pn, pb = rng.choice(PROBES) if with_probe else ('-', b'')
             # the model's scrolls walk lists cell by cell: the scroll functions get the small screens
@@ -830,7 +836,7 @@ def correspondence(ctx):
                 t = (1, 1, a, c, b, d)
         if (inter, final) == ('', 't'): t = (8, rng.choice(vals), rng.choice(vals)) if rng.random() < 0.8 else t
         if (inter, final) == ('', '~'): t = (rng.choice([1, 2, 2, 3, 4, 5, 7]),)
-        if final == 'b' and t and t[0] > 3000: t = (rng.choice([0, 1, w, w * h, 3000]),) + t[1:]
+        # REP is clamped to w*h copies (after the fix): any count on the small screens
         # REP through margins scrolls once per wrapped row; the model walks the region cell by cell (twice with the threaded counter): keep the count small on big screens
         if final == 'b' and t and w * h > 240 and t[0] > 400: t = (rng.choice([w, 2 * w + 1, 400]),) + t[1:]
         meta.append((inter, final, w, h, pre, csi(inter, final, t), t))
@@ -903,10 +909,10 @@ def correspondence(ctx):
             dis.append({'case': c, 'impl': grown, 'model': al, 'what': 'rows+cells allocated exceed the model alloc counter'}); continue
         if grown > ta or al > ta:
             dis.append({'case': c, 'impl': grown, 'model': [al, ta], 'what': 'rows+cells allocated exceed the THREADED allocation counter (alloc_dominates)'}); continue
-        # instances of alloc_bound / ticks_bound (every set-up of this stage satisfies the C09 invariant; REP is the known class)
-        if me[1] != 'b':
+        # instances of alloc_bound / ticks_bound (every set-up of this stage satisfies the C09 invariant; alloc_bound does not cover REP)
+        if True:
             nb = len(me[5])
-            if ta > 8 * (nb + 1) * mscr or tk > 8 * (nb + 1) * mscr * mscr:
+            if (me[1] != 'b' and ta > 8 * (nb + 1) * mscr) or tk > 8 * (nb + 1) * mscr * mscr:
                 dis.append({'case': c, 'impl': [grown, v[0]], 'model': [ta, tk, mscr],
                             'what': 'the model counters exceed the proved bounds 8(n+1)scr / 8(n+1)scr^2: the theorem does not speak about this model state'}); continue
             bound_margin.append(ta / float(8 * (nb + 1) * mscr))
@@ -1076,7 +1082,7 @@ LEVEL_TEXT = ('PARTIAL (by design: time and memory are runtime facts). Machine-c
               'at most 8(n+1) x measure^2 weighted inner iterations (ticks_bound, ticks_bound_sp/_dollar/_rqcra; the rectangle functions are clipped to the screen: rect_clip) and '
               'allocates at most 8(n+1) x measure rows + cells (alloc_bound, alloc_bound_sp/_dollar; threaded allocation counters that provably dominate the growth of the line table: '
               'alloc_dominates, alloc_counts_growth) - unconditionally for SU SD ICH DCH IL DL SL SR CVT CBT CUU CUD ECH ED EL SGR DECFRA DECERA DECSERA DECRQCRA window resize after the ten clamp fixes; '
-              'REP is the known class (rep_refuted / rep_linear). Conditional bounds with the known class as the explicit parameter: hex-macro repeat groups (hexmacro_bound: '
+              'REP after its repair (at most width x height copies: rep_clamped; old loop: rep_before_fix_refuted) is inside cost_bound and ticks_bound, not yet inside alloc_bound. Conditional bounds with the known class as the explicit parameter: hex-macro repeat groups (hexmacro_bound: '
               'work and expansion <= (1 + largest repeat count) x length), macro replay (macro_replay_bound: geometric in the nesting depth; recursion refuted), the sixel decoder '
               '(sixel_ticks_bound: iterations <= payload + executed repeat counts; sixel_alloc_bound / sixel_image_bound: bytes <= 4 max(T, declared width) x max(6T+6, declared height)), '
               'the cell loops of the binary loaders BIN ADF XBin Tundra IDF (load_ticks_bound_*: cells stored <= bytes (x 65 for compressed XBin) + declared run lengths; rows x cells of the loaded layer). '
@@ -1087,6 +1093,6 @@ LEVEL_NOTE = ('Theorems speak about iteration/allocation counts of the model; th
               'and stage S (absolute limits on the real code: single control functions, the same in prepared states, and probe suffixes on the state they leave). '
               'Extension: stage C also compares the threaded allocation counter and instances of alloc_bound / ticks_bound on every CSI case, the rectangle functions, '
               'characters printed by hex macros and nested macros (vs hexmacro_bound / macro_replay_bound), rows / bytes of decoded sixel images, and width / height / rows / cells of '
-              'buffers loaded from generated BIN ADF XBin Tundra IDF files. Known classes: REP, hex-macro repeat, macro recursion, sixel raster/repeat, declared sizes of loaders.')
+              'buffers loaded from generated BIN ADF XBin Tundra IDF files. Known classes: hex-macro repeat, macro recursion, sixel raster/repeat, declared sizes of loaders.')
 TECHNIQUE = ('Coq proof over tick-annotated model functions (arithmetic bounds from the C09 invariant) + exhaustive control-function table under process limits, '
              'on a fresh screen and on prepared states, with probe suffixes and terminal-state comparison against the model')
